@@ -27,12 +27,12 @@ type Prov struct {
 	BindOutside bool
 	// ErrAlias: the error result is spelled through an alias of error (type Failure = error).
 	ErrAlias bool
-	Kind    int
-	Struct  string   // KStruct: the struct type expression, e.g. "*S0"
-	Fields  []string // KStruct: exported field names (sorted), types in FieldTypes
-	FTypes  []string
-	ValueOf string // KValue: expression
-	VTerm   string // KValue: the SMT term of the constant, e.g. (litS "x")
+	Kind     int
+	Struct   string   // KStruct: the struct type expression, e.g. "*S0"
+	Fields   []string // KStruct: exported field names (sorted), types in FieldTypes
+	FTypes   []string
+	ValueOf  string // KValue: expression
+	VTerm    string // KValue: the SMT term of the constant, e.g. (litS "x")
 }
 
 type Decl struct {
